@@ -107,3 +107,15 @@ Theorem C06_duplicate_resolved_in_one_cycle : forall o active kw kl h cw cl,
   afind h (scr_of (nth_si (gc o active p) kw)) = Some cw /\ afind h (scr_of (nth_si (gc o active p) kl)) = None.
 Proof. exact gc_resolves_duplicate. Qed.
 Print Assumptions C06_duplicate_resolved_in_one_cycle.
+
+(* non-vacuity of C06_duplicate_resolved_in_one_cycle: target 7 normal on shard 0 (load 50) and shard 1 (load 50), both
+   scraped 5 times: equal loads, shard 0 is in front and wins - whichever shard the walk visits first *)
+Definition dx_stat : cstat := {| c_state := Normal; c_health := Good; c_series := 10; c_total := 10; c_times := 5 |}.
+Definition dx_plan : plan :=
+  [ {| si_ok := true; si_scr := Some [(7%N, dx_stat)]; si_head := 50; si_proc := 50; si_idle := None |};
+    {| si_ok := true; si_scr := Some [(7%N, dx_stat)]; si_head := 50; si_proc := 50; si_idle := None |} ].
+Definition dx_o : opts := {| max_head := 0; max_proc := 1000; max_shard := 5; min_shard := 1; max_idle := 0; disable_alleviate := false |}.
+Example C06_duplicate_resolved_example :
+  map (fun s => akeys (scr_of s)) (gc dx_o [(7%N, 0%N)] dx_plan) = [[7%N]; []] /\
+  load_of dx_o (nth_si dx_plan 0) = load_of dx_o (nth_si dx_plan 1) /\ (min_wait <= c_times dx_stat)%N.
+Proof. vm_compute. repeat split; try reflexivity. discriminate. Qed.
